@@ -871,12 +871,18 @@ def base_special(r):
     for n in (P39 - 2, P39 - 1, P39, P39 + 1, 2 ** 40 - 1, 2 ** 40, 2 ** 40 + 1, P53 - 1):
         if n not in vals:
             vals.append(n)
+    # whole numbers of several machine words (the library converts a word per division): words that are zero, that begin
+    # with zero digits, that are full - the digits of a lower word keep their leading zeros
+    for n in (2 ** 62, 2 ** 64 + 1, 10 ** 18, 10 ** 19, r ** 70 - 1, r ** 70, r ** 70 + 1, r ** 27 + r ** 3, 2 ** 130 + 2 ** 65 + 1,
+              10 ** 40 + 7, 36 ** 24 + 36 ** 12 + 35):
+        if n not in vals:
+            vals.append(n)
     return vals
 
 
 class BaseDecimal(Sub):
     name = 'c17.base_decimal'
-    rule = ('radix 2..36 x n in 0..N and r^k, r^k+-1 < 2^53, the neighbours of 2^39 and 2^40, 2^53-1: BASE(n,r) is the positional text with digits '
+    rule = ('radix 2..36 x n in 0..N and r^k, r^k+-1 < 2^53, the neighbours of 2^39 and 2^40, 2^53-1, eleven whole numbers of two to six machine words (2^62 .. r^70+1, with zero words and zero-led words): BASE(n,r) is the positional text with digits '
             '0-9A-Z (case-insensitive) and DECIMAL(BASE(n,r),r) = n (where BASE is wrong: DECIMAL(reference text,r) '
             '= n instead), each within the step budget; non-trivial = representation has >= 2 digits or a letter digit')
     BLOCK = 100
